@@ -507,6 +507,9 @@ pub struct MFlags {
     pub delh: bool,
     pub del: bool,
     pub clear: bool,
+    /// query operations (QF, QG, QA, QB) are transitions too: with the raw-word state identity a query that
+    /// changes hidden state (a memo, a cached slot) leads to a new state, and the search goes on from there
+    pub qops: bool,
     // oracles
     pub o_ref: bool,
     pub o_handle: bool,
@@ -999,6 +1002,7 @@ impl<S: MSub + Send> System for MSys<S> {
         self.prop
     }
     fn fresh(&self, cx: &mut Cx) -> Option<MObj<S>> {
+        rt::scrub_stack();
         rt::cb_reset(None);
         match guard(|| S::new(self.hint)) {
             Ok(sub) => Some(MObj { sub, model: BTreeMap::new(), inj_used: 0 }),
@@ -1033,6 +1037,9 @@ impl<S: MSub + Send> System for MSys<S> {
         if self.f.clear {
             out.push(op(K_CLEAR, 0));
         }
+        if self.f.qops {
+            out.extend(self.query_ops(o));
+        }
     }
     fn step(&self, o: &mut MObj<S>, st: Step, cx: &mut Cx) -> u32 {
         self.do_step(o, st, cx)
@@ -1057,6 +1064,9 @@ impl<S: MSub + Send> System for MSys<S> {
         out.push(o.inj_used as u8);
         self.canon_sub(&o.sub, out);
     }
+    fn raw_words(&self, o: &MObj<S>, out: &mut Vec<u64>) {
+        rt::raw_words_of(&o.sub, out);
+    }
     fn nontrivial(&self, o: &MObj<S>) -> bool {
         o.model.len() >= 2
     }
@@ -1075,7 +1085,9 @@ impl<S: MSub + Send> System for MSys<S> {
     fn deep_ops(&self, o: &MObj<S>) -> Vec<u32> {
         let mut v = vec![];
         self.enabled(o, &mut v);
-        v.extend(self.query_ops(o));
+        if !self.f.qops {
+            v.extend(self.query_ops(o));
+        }
         v
     }
     fn query_ops(&self, o: &MObj<S>) -> Vec<u32> {
